@@ -246,6 +246,10 @@ impl<'a> World<'a> {
             let p = extra.get("prop").and_then(|p| p.as_str()).unwrap_or("C03");
             out.push(json!([k, val, p, clause(p)]));
         }
+        // verdict-only agreement (states not comparable, e.g. a batch against the block holding the same transactions)
+        if let Some(k) = extra.get("agreeRes").and_then(|k| k.as_str()) {
+            out.push(json!([k, res, "C03", "the same set of transactions is accepted in one presentation (batch / block / order / run) and rejected in another"]));
+        }
         if let Some(a) = extra.get("agree").and_then(|a| a.as_array()) {
             for kp in a {
                 let p = kp[1].as_str().unwrap_or("C03");
